@@ -567,6 +567,52 @@ theorem code_no_mixed_view (names : List String) (nRestores : Nat) (sched : List
     subst this
     rfl
 
+/-! ## Methods called from inside a transaction body (regenerated: `dbInTxPrograms`, `dbInTxApis`) -/
+
+/-- obligation on the regenerated tables: every method a transaction body calls — the ones taking the
+    transaction as a parameter (SnapshotInTx, RootBucket, Update / Batch with the running context) and the
+    ones the repository calls inside a transaction body (Migrate: GetDefaultSnapshotPath) — takes no read
+    lock on its in-transaction path: `RLock; tx; <method>; RUnlock` is flat. -/
+theorem in_tx_apis_take_no_read_lock : inTxApisFlat Generated.dbInTxApis Generated.dbInTxPrograms = true := by decide
+
+/-- obligation on the regenerated table, for EVERY exported DbImpl method: a method that opens no bolt
+    transaction of its own on its in-transaction path (a helper a transaction body may call: RootBucket,
+    SnapshotInTx, GetDefaultSnapshotPath, nested Update / Batch, AddRestoreListener, AddTxCompleteListener,
+    MarkAsSnapshot, and whatever is added later) takes no reload lock there — `Stats` excepted (`lockByDesign`). -/
+theorem helpers_take_no_read_lock : helpersLockFree Generated.dbInTxPrograms = true := by decide
+
+/-- hence: any population of transactions each calling one of those methods from inside its body, and
+    any number of restores, under any interleaving, is never stuck -/
+theorem code_in_tx_call_no_deadlock (names : List String) (nRestores : Nat) (sched : List Nat)
+    (hn : ∀ n ∈ names, n ∈ Generated.dbInTxApis.map Prod.fst) :
+    stuck (exec (init (names.filterMap (fun n => (inTxProg Generated.dbInTxPrograms n).map mkTx) ++
+        List.replicate nRestores (.restore .persist))) sched) = false := by
+  apply no_deadlock_flat
+  intro t ht
+  rcases List.mem_append.mp ht with ht | ht
+  · obtain ⟨n, hnm, hsome⟩ := List.mem_filterMap.mp ht
+    obtain ⟨a, ha, rfl⟩ := List.mem_map.mp (hn n hnm)
+    have hall := in_tx_apis_take_no_read_lock
+    simp only [inTxApisFlat, List.all_eq_true] at hall
+    have := hall a ha
+    cases hp : inTxProg Generated.dbInTxPrograms a.1 with
+    | none => rw [hp] at hsome; simp at hsome
+    | some p =>
+      rw [hp] at hsome this
+      simp only [Option.map_some, Option.some.injEq] at hsome
+      subst hsome
+      simpa [mkTx, Thread.initialFlat] using this
+  · have := (List.mem_replicate.mp ht).2
+    subst this
+    rfl
+
+/-- not vacuous: a method that takes the read lock itself (the seeded C17-15 reading of
+    GetDefaultSnapshotPath: `rlock, runlock`) called from inside a transaction body, with a restore
+    announcing its write lock between the transaction's RLock and the call: stuck -/
+example : flat 0 (inTxCall [.rlock, .runlock]) = false := by decide
+example : stuck (exec (init [mkTx (inTxCall [.rlock, .runlock]), .restore .persist]) [0, 0, 1, 1]) = true := by decide
+example : (inTxProg Generated.dbInTxPrograms "GetDefaultSnapshotPath").map (flat 0) = some true := by decide
+
 /-! ## Non-vacuity, and the finding -/
 
 /-- the hypotheses are satisfiable by the interesting population: two readers, a snapshotter and
